@@ -213,6 +213,17 @@ def u8_match_table(body, kind_names):
     return out
 
 
+def _kind_eq_is_discriminant_eq(prog):
+    """HaystackKind's == compares the two discriminants and nothing else (the derived implementation of a field-less enum)"""
+    for b in prog.bodies.values():
+        im = b.rec.get("impl") or {}
+        if b.rec.get("name") == "eq" and im.get("self_adt") == KIND and "PartialEq" in im.get("trait_ref", ""):
+            discr = [st for blk in b.blocks for st in blk["stmts"] if st["k"] == "assign" and st["rv"]["k"] == "discr"]
+            eqs = [st for blk in b.blocks for st in blk["stmts"] if st["k"] == "assign" and st["rv"]["k"] == "binop" and st["rv"]["op"] == "Eq"]
+            return len(discr) == 2 and len(eqs) == 1 and not list(b.calls())
+    return False
+
+
 GETTER_KIND = {
     "get_bool": "Bool", "get_num": "Number", "get_str": "Str", "get_xstr": "XStr", "get_ref": "Ref", "get_uri": "Uri", "get_symbol": "Symbol",
     "get_date": "Date", "get_time": "Time", "get_date_time": "DateTime", "get_coord": "Coord", "get_dict": "Dict", "get_list": "List", "get_grid": "Grid",
@@ -240,10 +251,12 @@ def check(ctx, rep):
 
     # From<&Value> for HaystackKind
     bs = find(lambda b: (b.rec.get("impl") or {}).get("self_adt") == KIND and "From<&" in (b.rec.get("impl") or {}).get("trait_ref", "") and "Value" in (b.rec.get("impl") or {}).get("trait_ref", "") and b.rec.get("name") == "from")
+    kov = None
     if len(bs) != 1:
         rep.gap("From<&Value> for HaystackKind", "-", "found %d" % len(bs))
     else:
         tab = table_of_switch(bs[0], VAL, vnames)
+        kov = {k: v[1] for k, v in (tab or {}).items() if v and v[0] == "variant"}
         nt += 1
         bad = {k: v for k, v in (tab or {}).items() if not (v and v[0] == "variant" and v[1] == k)}
         if tab and not bad and len(tab) == len(vv):
@@ -336,6 +349,29 @@ def check(ctx, rep):
         tab = u8_match_table(b_u8, kdis)
         tu = {k: v[2] for k, v in tab.items() if v and v[0] == "variant" and v[1] == "Ok"}
         want = {d: n for n, d in kk}
+        if not tu:
+            # the inverse by construction: search a constant array of kinds for the one whose own numeric code equals the value
+            arr = None
+            for pb in b_u8.promoted:
+                for blk in pb.blocks:
+                    for st in blk["stmts"]:
+                        if st["k"] == "assign" and st["rv"]["k"] == "use":
+                            c = op_const(st["rv"]["op"])
+                            if c is not None and "raw" in c and str(c.get("ty", "")).startswith("[" + KIND):
+                                arr = list(c["raw"])
+            finds = [t for _bi, t in b_u8.calls() if strip_generics(mir.callee_name(t) or "").endswith(("Iterator::find", "Iterator>::find"))]
+            others = [strip_generics(mir.callee_name(t) or "") for _bi, t in b_u8.calls()]
+            plumbing = all(x.endswith(("::iter", "::copied", "::cloned", "::find", "::ok_or_else", "::ok_or", "::into_iter", "IntoIterator>::into_iter")) for x in others)
+            by_code = False
+            for cid in prog.closures_of.get(b_u8.id, []):
+                cb = prog.bodies[cid]
+                rv = G.describe_place(cb, {"l": 0, "p": []})
+                if rv.kind == "binop" and rv.v == "Eq":
+                    a = [repr(x) for x in rv.args]
+                    if any(re.fullmatch(r"discr:\(_2\**\)", x) for x in a) and any(re.fullmatch(r"_1\*?\.0\**", x) for x in a):
+                        by_code = True
+            if arr is not None and len(finds) == 1 and by_code and plumbing and len(set(arr)) == len(arr):
+                tu = {c: knames[c] for c in arr if c in knames}
         if tu == want:
             rep.ok("R-KINDS", "u8-code-table", b_u8.where(), "TryFrom<u8> pairs each of the %d codes with its own kind" % len(tu))
         else:
@@ -354,6 +390,14 @@ def check(ctx, rep):
         npred += 1
         r = positive_variants(b, vnames)
         key = "predicate:is_%s" % n.lower()
+        if r is None and kov:
+            # `HaystackKind::from(self) == HaystackKind::K`: true exactly for the variants the (checked) kind table sends to K
+            rv = G.describe_place(b, {"l": 0, "p": []})
+            if rv.kind == "call" and strip_generics(rv.v).endswith("kind::HaystackKind as std::cmp::PartialEq>::eq") and len(rv.args) == 2 and _kind_eq_is_discriminant_eq(prog):
+                kc = [a for a in rv.args if a.kind == "agg" and a.v in kdis]
+                fc = [a for a in rv.args if a.kind == "call" and strip_generics(a.v).startswith("<" + KIND + " as std::convert::From") and a.args and re.fullmatch(r"_1\**", repr(a.args[0]))]
+                if len(kc) == 1 and len(fc) == 1:
+                    r = ({vn for vn, kn in kov.items() if kn == kc[0].v}, set(), False)
         if r is None:
             rep.gap(key, b.where(), "no switch on the value's discriminant")
             continue
